@@ -48,6 +48,12 @@ func (c *trCtx) freeVars(except []types.Object, nodes ...ast.Node) []types.Objec
 	for _, n := range nodes {
 		if n != nil && !isNilNode(n) && trHasReturn(n) {
 			for _, m := range c.fn.mutObjs {
+				if mv := c.writerMove; mv != nil && mv.param == m {
+					if _, known := c.names[mv.local]; known {
+						used[mv.local] = true // the sink lives in the local's field (trans_units_jprinter.go)
+						continue
+					}
+				}
 				used[m] = true
 			}
 			for _, v := range c.stateVars {
